@@ -5,13 +5,14 @@ use crate::engine::Ctx;
 pub mod c06;
 pub mod c11;
 pub mod c12;
+pub mod c13;
 pub mod c14;
 pub mod c15;
 pub mod c16;
 pub mod c17;
 pub mod c20;
 
-pub const ALL: &[&str] = &["C06", "C11", "C12", "C14", "C15", "C16", "C17", "C20"];
+pub const ALL: &[&str] = &["C06", "C11", "C12", "C13", "C14", "C15", "C16", "C17", "C20"];
 
 pub fn exists(p: &str) -> bool {
     ALL.contains(&p)
@@ -22,6 +23,7 @@ pub fn run(p: &str, ctx: &mut Ctx) {
         "C06" => c06::run(ctx),
         "C11" => c11::run(ctx),
         "C12" => c12::run(ctx),
+        "C13" => c13::run(ctx),
         "C14" => c14::run(ctx),
         "C15" => c15::run(ctx),
         "C16" => c16::run(ctx),
@@ -37,6 +39,7 @@ pub fn meta(p: &str) -> (String, Vec<String>) {
         "C06" => (c06::RULE, c06::ASSUMPTIONS),
         "C11" => (c11::RULE, c11::ASSUMPTIONS),
         "C12" => (c12::RULE, c12::ASSUMPTIONS),
+        "C13" => (c13::RULE, c13::ASSUMPTIONS),
         "C14" => (c14::RULE, c14::ASSUMPTIONS),
         "C15" => (c15::RULE, c15::ASSUMPTIONS),
         "C16" => (c16::RULE, c16::ASSUMPTIONS),
